@@ -751,6 +751,15 @@ class UniformTime(np.ndarray, TimeInterface):
         else:
             return np.ndarray.__getitem__(self, key)
 
+    def copy(self, *args, **kwargs):
+        """A copy that shares no mutable state with the original: the t0,
+        sampling_interval and duration objects are copied with the samples"""
+        out = np.ndarray.copy(self, *args, **kwargs)
+        for attr in ['t0', 'sampling_interval', 'duration']:
+            if hasattr(self, attr):
+                setattr(out, attr, getattr(self, attr).copy())
+        return out
+
     def __setitem__(self, key, val):
         raise ValueError("""Setting of individual indices would break uniformity:
             You can either use += on the full array, OR
